@@ -656,4 +656,152 @@ Proof.
         exists (NSec h' s ks' :: kids'). split; [reflexivity|]. cbn [map node_buf]. rewrite Em. reflexivity.
 Qed.
 
+(* ---------- checksums of a regenerated file header ---------- *)
+
+Lemma sum_list_app a b : sum_list (a ++ b) = sum_list a + sum_list b.
+Proof.
+  induction a as [|x a IH]; [reflexivity|]. unfold sum_list in *. cbn [app fold_right]. rewrite IH. lia.
+Qed.
+
+Lemma ck_fix S c k s : c = (0 - S) mod 256 ->
+  (c - (((S + c + k + s) mod 256 - k - s) mod 256)) mod 256 = c.
+Proof.
+  intros ->.
+  assert (E : ((S + (0 - S) mod 256 + k + s) mod 256 - k - s) mod 256 = 0).
+  { rewrite Zminus_mod, (Zminus_mod ((S + (0 - S) mod 256 + k + s) mod 256) k).
+    rewrite Z.mod_mod by lia. rewrite <- (Zminus_mod (S + (0 - S) mod 256 + k + s) k).
+    rewrite <- Zminus_mod.
+    replace (S + (0 - S) mod 256 + k + s - k - s) with (S + (0 - S) mod 256) by lia.
+    rewrite Zplus_mod_idemp_r. replace (S + (0 - S)) with 0 by lia. reflexivity. }
+  rewrite E. rewrite Z.sub_0_r. apply Z.mod_mod. lia.
+Qed.
+
+Lemma byte_land_254 a : 0 <= a < 256 -> Z.land a 1 = 0 -> Z.land a 254 = a.
+Proof.
+  intros Ha H1.
+  assert (F : forallb (fun n => negb (Z.land (Z.of_nat n) 1 =? 0) || (Z.land (Z.of_nat n) 254 =? Z.of_nat n))
+                      (seq 0 256) = true) by (vm_compute; reflexivity).
+  rewrite forallb_forall in F. specialize (F (Z.to_nat a)).
+  rewrite Z2Nat.id in F by lia. rewrite H1 in F. cbn [negb orb] in F.
+  change (0 =? 0) with true in F. cbn [negb orb] in F.
+  apply Z.eqb_eq. apply F. apply in_seq. lia.
+Qed.
+
+Lemma file_bytes_raw g t attr state body :
+  file_bytes g t attr state body =
+  raw_file_bytes g ((0 - (sum_list g + t + attr + sum_list (le_enc 3 (24 + zlen body)))) mod 256)
+                 (if attr_checksum attr then (0 - sum_list body) mod 256 else 170) t attr state body.
+Proof. reflexivity. Qed.
+
+Lemma checksum_and_assemble_id h g t attr state data :
+  zlen g = 16 -> 0 <= attr < 256 -> Z.land attr 1 = 0 -> 24 + zlen data < 16777215 ->
+  f_guid h = g -> f_type h = t -> f_state h = state ->
+  f_ckh h = (0 - (sum_list g + t + attr + sum_list (le_enc 3 (24 + zlen data)))) mod 256 ->
+  snd (checksum_and_assemble h (24 + zlen data) attr data) = file_bytes g t attr state data /\
+  f_attr (fst (checksum_and_assemble h (24 + zlen data) attr data)) = attr.
+Proof.
+  intros Lg Ha Hl Hn Eg Et Es Eh. pose proof (zlen_nonneg data).
+  unfold checksum_and_assemble. cbn [fst snd f_attr]. split; [|reflexivity].
+  unfold attr_large. rewrite Hl. change (negb (0 =? 0)) with false. cbv iota.
+  unfold write3. replace (16777215 <=? 24 + zlen data) with false by lia.
+  rewrite Eg, Et, Es.
+  set (sz := le_enc 3 (24 + zlen data)).
+  assert (F24 : zfirstn 24 (file_header_bytes g (f_ckh h) (f_ckf h) t attr (24 + zlen data) state (24 + zlen data) true)
+                = g ++ [f_ckh h; f_ckf h; t; attr] ++ sz ++ [state]).
+  { unfold file_header_bytes. fold sz.
+    replace (g ++ [f_ckh h; f_ckf h; t; attr] ++ sz ++ [state] ++ le_enc 8 (24 + zlen data))
+      with ((g ++ [f_ckh h; f_ckf h; t; attr] ++ sz ++ [state]) ++ le_enc 8 (24 + zlen data))
+      by (rewrite <- !app_assoc; reflexivity).
+    assert (L : zlen (g ++ [f_ckh h; f_ckf h; t; attr] ++ sz ++ [state]) = 24).
+    { rewrite !zlen_app, Lg. unfold sz. rewrite le3. reflexivity. }
+    rewrite <- L. apply zfirstn_app_exact. }
+  rewrite F24. unfold sum8. rewrite !sum_list_app.
+  change (sum_list [f_ckh h; f_ckf h; t; attr]) with (f_ckh h + (f_ckf h + (t + (attr + 0)))).
+  change (sum_list [state]) with (state + 0).
+  set (S := sum_list g + t + attr + sum_list sz).
+  replace (sum_list g + (f_ckh h + (f_ckf h + (t + (attr + 0))) + (sum_list sz + (state + 0))))
+    with (S + f_ckh h + f_ckf h + state) by (unfold S; lia).
+  rewrite (ck_fix S (f_ckh h) (f_ckf h) state) by (rewrite Eh; reflexivity).
+  unfold file_bytes, file_header_bytes. fold sz. rewrite Eh. fold S.
+  rewrite app_nil_r.
+  replace ((0 - sum_list data mod 256) mod 256) with ((0 - sum_list data) mod 256).
+  - rewrite <- !app_assoc. reflexivity.
+  - rewrite (Zminus_mod 0 (sum_list data mod 256)), Z.mod_mod by lia. rewrite <- Zminus_mod. reflexivity.
+Qed.
+
+Lemma zlen_lay_ge l : Forall (fun s => 4 <= zlen s) l -> 4 * Z.of_nat (length l) <= zlen (lay l).
+Proof.
+  induction 1 as [|s r Hs Hr IH]; [cbn; unfold zlen; cbn; lia|].
+  cbn [lay length]. rewrite zlen_app. destruct r as [|s2 r2].
+  - cbn [length] in *. change (zlen (@nil Z)) with 0. lia.
+  - rewrite zlen_app.
+    match goal with |- _ <= _ + (zlen ?p + _) => pose proof (zlen_nonneg p) end. lia.
+Qed.
+
+Lemma bytes_ok_lay l : Forall (fun s => bytes_ok s = true) l -> bytes_ok (lay l) = true.
+Proof.
+  induction 1 as [|s r Hs Hr IH]; [reflexivity|].
+  cbn [lay]. rewrite bytes_ok_app, Hs. destruct r as [|s2 r2]; [reflexivity|].
+  rewrite bytes_ok_app, IH, andb_true_r. cbn [andb].
+  unfold zrepeat. generalize (Z.to_nat (align4 (zlen s) - zlen s)). intros k.
+  induction k; cbn; auto.
+Qed.
+
+(* ---------- R8: files rebuilt from their sections ---------- *)
+
+Lemma file_ok_sections g t attr state secs :
+  zlen g = 16 -> bytes_ok g = true -> 0 <= t < 256 -> 0 <= attr < 256 -> 0 <= state < 256 ->
+  Z.land attr 1 = 0 -> supported_file t = true -> secs <> [] -> Forall sec_ok secs ->
+  24 + zlen (sections_bytes secs) < 16777215 ->
+  file_ok (file_bytes g t attr state (sections_bytes secs)).
+Proof.
+  intros Lg Og Ht Ha Hs Hl Hsup Hne Hok Hn.
+  rewrite sections_bytes_lay in *. set (body := lay secs) in *.
+  pose proof (zlen_nonneg body) as Hbn.
+  assert (Obody : bytes_ok body = true).
+  { apply bytes_ok_lay. eapply Forall_impl; [|exact Hok]. intros a (O & _); exact O. }
+  assert (Hnv : (t =? 1) && bytes_eqb g NVAR_GUID = false).
+  { destruct (t =? 1) eqn:E; [|reflexivity]. apply Z.eqb_eq in E. subst t. discriminate. }
+  rewrite file_bytes_raw.
+  set (ckh := (0 - (sum_list g + t + attr + sum_list (le_enc 3 (24 + zlen body)))) mod 256).
+  set (ckf := if attr_checksum attr then (0 - sum_list body) mod 256 else 170).
+  assert (Hckh : 0 <= ckh < 256) by (apply Z.mod_pos_bound; lia).
+  assert (Hckf : 0 <= ckf < 256) by (unfold ckf; destruct (attr_checksum attr); [apply Z.mod_pos_bound|]; lia).
+  split; [apply bytes_ok_raw_file; auto|]. split; [rewrite zlen_raw_file by auto; lia|].
+  destruct (Forall_sec_ok_at secs Hok) as (d1 & Hd1).
+  exists (S d1). intros d Hd rest. destruct d as [|d]; [lia|].
+  rewrite parse_file_S. rewrite file_body_start by auto. cbv zeta. rewrite Hsup. cbn [negb].
+  (* the file buffer is a 24-byte header followed by the laid-out sections *)
+  set (hdr := g ++ [ckh; ckf; t; attr] ++ le_enc 3 (24 + zlen body) ++ [state]).
+  assert (Lh : zlen hdr = 24) by (unfold hdr; rewrite !zlen_app, Lg, le3; reflexivity).
+  assert (Efb : raw_file_bytes g ckh ckf t attr state body = hdr ++ lay secs).
+  { unfold raw_file_bytes, hdr. fold body. rewrite <- !app_assoc. reflexivity. }
+  assert (Hfuel : (length secs < Z.to_nat (24 + zlen body) + 1)%nat).
+  { assert (G : 4 * Z.of_nat (length secs) <= zlen (lay secs)).
+    { apply zlen_lay_ge. eapply Forall_impl; [|exact Hok]. intros a (_ & L & _). lia. }
+    fold body in G. lia. }
+  destruct (sections_loop_lay d secs (Hd1 d ltac:(lia)) hdr (Z.to_nat (24 + zlen body) + 1)%nat 0)
+    as (kids & El & kids' & Ek & Em); [rewrite Lh; reflexivity | exact Hfuel |].
+  rewrite Lh in El. rewrite Efb. rewrite El. cbn [bind].
+  destruct (raw_file_fields g ckh ckf t attr state body [] Lg ltac:(lia)) as (_ & _ & _ & _ & F19 & _).
+  rewrite app_nil_r in F19. rewrite <- Efb.
+  eexists; eexists. split; [reflexivity|]. cbn [f_ext f_attr]. rewrite zlen_raw_file by auto.
+  split; [reflexivity|]. split; [symmetry; exact F19|].
+  rewrite asm_NFile. rewrite Ek. cbn [bind]. unfold file_asm. cbn [f_nvar].
+  destruct kids' as [|k0 kr] eqn:Ekids.
+  { exfalso. cbn in Em. apply Hne. symmetry. exact Em. }
+  rewrite <- Ekids in *. rewrite Em.
+  replace (join4 [] secs) with body by (symmetry; apply sections_bytes_lay).
+  destruct kids' as [|k0' kr']; [discriminate|].
+  unfold set_size. replace (16777215 <=? 24 + zlen body) with false by lia.
+  unfold set_large. cbn [f_attr]. rewrite byte_land_254 by auto.
+  match goal with |- context [checksum_and_assemble ?h _ _ _] =>
+    destruct (checksum_and_assemble_id h g t attr state body Lg Ha Hl Hn eq_refl eq_refl eq_refl eq_refl)
+      as [E1 E2];
+    destruct (checksum_and_assemble h (24 + zlen body) attr body) as [h' nb] eqn:G end.
+  cbn [fst snd] in E1, E2. rewrite E1. rewrite file_bytes_raw. fold ckh ckf.
+  replace (16777215 <? 24 + zlen body) with false by lia.
+  eexists; eexists. split; [reflexivity|]. exact E2.
+Qed.
+
 End Save.
